@@ -495,6 +495,14 @@ def c06_v2000(**p):
             chg = [(a + 1, c.int(f"chg{a}", -15, 15)) for a in range(n)] if alt and not p.get("codes") else []
             pl += fixed_lines("CHG", chg) if chg else []
             pl += fixed_lines("RAD", rad) + fixed_lines("ISO", iso)
+            if alt and p.get("stale"):
+                # M  CHG lines are present: whatever the atom-block charge column says (incl. code 4) is superseded
+                for a in range(n):
+                    al[a] = v2000_atom_line(mol.elements[a], (1.5 * a, -0.25, 0.0), ccc=c.choice(f"stale{a}", 8) if a < 2 else 0)
+            if alt and p.get("unrelated"):
+                u = c.choice("unrelated", len(UNRELATED))
+                at = c.choice("unrelated_at", len(pl) + 1)
+                pl[at:at] = UNRELATED[u]
             text = v2000_text(al, bl, pl, header=("name", "  PROG", "comment") if alt else ("", "", ""), eol="\r\n" if alt and p.get("crlf") else "\n")
             if alt and p.get("after_end"):
                 # content after "M  END" (an SD file's data items and a following record) is not part of this molecule
